@@ -6,7 +6,7 @@ ID = "C02"
 THEOREM_FILE = "Properties/C02.v"
 COQ_PROP_OK = "(fun c => C02_ok (s_complete (fst c)) (snd c))"
 RULE = ("seeded whole-system runs ending by a shutdown command at a random position of a pause/resume/save history (incl. while paused, right after a pause request, back to back), "
-        "by the uptime limit, or by a KeyboardInterrupt at a random control tick or before a random synchronisation operation of the control loop (anywhere but in the worker-pool section of try_pause and inside a state save); random step/training/hook durations; random and PCT schedules. Checked per run: launch() returned, no deadlock, "
+        "by the uptime limit, or by a KeyboardInterrupt at a random control tick or before a random synchronisation operation of the control loop (anywhere but in the worker-pool section of try_pause and inside a state save); random step/training/hook durations; random and PCT schedules. 30% of the runs use a time scale of 2, 4, 10 or 1/2. Checked per run: launch() returned, no deadlock, a pause attempt that fails has waited the configured timeout in real seconds, "
         "both threads exited, final state after the last callback, clock running at scale 1, and a pause attempt fails only if a callback was still in flight when its timeout fired. "
         "30% of the runs ended by a command or the uptime limit get a keyboard interrupt in the middle of that shutdown. Non-trivial = the shutdown (or interrupt / uptime) arrived while the system was paused or a pause was in flight; distinct = canonical JSON.")
 TRUSTED = B.TRUSTED_SYS
@@ -36,6 +36,12 @@ def gen_one(rng, seed):
         else:
             sp["interrupt_at_op"] = rng.randint(1, 300)      # before any synchronisation operation of the control loop
         sp["cmds"] += [["sleep", 0.5], ["shutdown", "retry"]]
+    if "time_scale" not in sp and rng.random() < 0.3:
+        # a clock that runs faster or slower than real time: the pause timeout is counted in real seconds all the same
+        sp["time_scale"] = rng.choice([2.0, 4.0, 10.0, 0.5])
+        sp["pause_timeout"] = rng.choice([0.005, 0.02, 0.05])
+        sp["step_dur"] = rng.choice([0.002, 0.004, 0.01])
+        sp["train_dur"] = rng.choice([0.004, 0.01, 0.03])
     if "interrupt_at" not in sp and "interrupt_at_op" not in sp and rng.random() < 0.3:
         # a Ctrl-C that lands while the shutdown requested by a command / the uptime limit is in progress: before the k-th
         # synchronisation operation of ControlThread.shutdown()
@@ -74,6 +80,30 @@ def first_attempt_ok(obs, case):
     return True
 
 
+def attempt_given_up_early(obs, case):
+    """a pause attempt that fails must have waited the configured timeout (raw seconds, as Event.wait counts them): an attempt
+    that is withdrawn sooner gives a thread less than the timeout to finish what it has in flight"""
+    tr, ts = obs.get("trace") or [], obs.get("times") or []
+    if len(ts) != len(tr):
+        return False
+    timeout = case.get("pause_timeout", 60.0)
+    t0 = None
+    for e, t in zip(tr, ts):
+        if e[0] != "main":
+            continue
+        if e[1] == "clear" and e[2] == "resume":
+            t0 = t
+        elif e[1] == "clock_pause":
+            t0 = None                       # the attempt succeeded
+        elif e[1] == "set" and e[2] == "resume" and t0 is not None:
+            if t - t0 < timeout * (1 - 1e-9):
+                return True                 # withdrawn (or shut down) before the timeout had passed ...
+            t0 = None
+        elif e[1] in ("interrupt", "q_get") or (e[1] == "set" and e[2] == "shutdown"):
+            t0 = None                       # ... unless something else ended the attempt
+    return False
+
+
 def precheck(case, obs):
     v = B.precheck_common(case, obs)
     if v:
@@ -84,7 +114,7 @@ def precheck(case, obs):
     if not done:
         return {"agree": False, "prop_ok": False}
     d = done[0]
-    ok = d[2] == "returned" and d[3] is False and d[4] == 1.0 and first_attempt_ok(obs, case)
+    ok = d[2] == "returned" and d[3] is False and d[4] == 1.0 and first_attempt_ok(obs, case) and not attempt_given_up_early(obs, case)
     if not ok:
         return {"agree": True, "prop_ok": False}
     return None
@@ -124,6 +154,8 @@ def signature(case, obs):
             return "clock-left-paused"
         if d[4] != 1.0:
             return "scale-not-reset"
+    if attempt_given_up_early(obs, case):
+        return "pause-attempt-given-up-before-the-timeout"
     if not first_attempt_ok(obs, case):
         return "blocked-without-acknowledging"
     return "c02-other"
